@@ -39,7 +39,7 @@ CLAIMED = {
         ref='DESIGN.md 5 (C25)'),
     'C26': dict(
         text='Deductive, unbounded proof (Verus) over the real text of crates/topo: TopoSort::{default,len,is_empty,insert,insert_dep,remove,clear,peek_all,in_cycle,peek_all_cyclic} and Dependencies::new, with indexmap replaced by a specified shim. An inductive representation invariant (the counter of every pending item equals the number of pending items that list it as a dependant; keys distinct) is preserved by every mutator from an ARBITRARY well-formed state, hence over every history of any length and any number of items; under it peek_all offers exactly the items all of whose registered dependencies have completed, a cycle is reported iff the schedule is non-empty and every item still waits, remove makes an item disappear until it is re-registered, counters never underflow.',
-        note='Assumed: the indexmap contract (shims/verus/indexmap.rs); T::clone is the identity; generic parameters instantiated at P=Q=U=T (the checker\\'s only use); iterator chains of the three observers replaced by shims that take the same closure; the usage protocol "a dependency is only registered on an item that is pending or was never scheduled" is a PRECONDITION of insert/insert_dep (no stale edges) and is not proved about InferenceCtx::finish; extend/insert_deps/pop/pop_all are not under contract.',
+        note='Assumed: the indexmap contract (shims/verus/indexmap.rs); T::clone is the identity; generic parameters instantiated at P=Q=U=T (the only use the checker makes); iterator chains of the three observers replaced by shims that take the same closure; the usage protocol "a dependency is only registered on an item that is pending or was never scheduled" is a PRECONDITION of insert/insert_dep (no stale edges) and is not proved about InferenceCtx::finish; extend/insert_deps/pop/pop_all are not under contract.',
         ref='DESIGN.md 5 (C26)'),
     'C27': dict(
         text='Deductive proof over the real text of add_part and MangledPartKind::to_code: add_part appends exactly <decimal length><text>, with an underscore put in front of texts that start with a digit or an underscore; this per-part encoding is proved injective and uniquely decodable when followed by anything (prefix-freeness lemma), and kind letters are pairwise different upper-case letters.',
